@@ -1,3 +1,4 @@
+import Rp2.Proofs.ComputeWindow
 import Rp2.Proofs.Prefix
 /-! # C09 — later transactions never change results already computed for earlier periods -/
 namespace Rp2.C09
@@ -9,4 +10,13 @@ theorem earlier_fractions_unchanged (c c' : Ctx) (N : Nat) (hc : SameBelow c c' 
     | none => runS c' r' k (es₁ ++ es₂) = none
     | some o₁ => ∃ r1', AgreeBelow N r1' r1' ∧ runS c' r' k (es₁ ++ es₂) = (runS c' r1' (k + es₁.length) es₂).map (o₁ ++ ·) :=
   runS_prefix c c' N hc es₁ es₂ r r' k hag hb
+/-- **on the `compute` model**: a run limited by a to-date shows the fractions of the unlimited computation dated up to it
+    (under `LocalDatesMonotone`); together with `earlier_fractions_unchanged` — those fractions do not depend on what comes later —
+    this is the to-date form of the property -/
+theorem model_to_date_run_is_prefix_of_full_run (asset : String) (acctName : Nat → String) (period : Int) (allowNeg : Bool) (t : Int)
+    (sched : List (Int × Method)) (ins : List InTx) (outs : List OutTx) (intras : List IntraTx) (cd : Computed)
+    (h : compute asset acctName period allowNeg none (some t) sched ins outs intras = .ok cd)
+    (hmono : ∀ fs, computeFractions sched ins outs intras = .ok fs → fs.Pairwise (fun a b => a.ev.ts.day ≤ b.ev.ts.day)) :
+    ∃ fs, computeFractions sched ins outs intras = .ok fs ∧ cd.fracs.map (·.f) = fs.filter (fun f => decide (f.ev.ts.day ≤ t) && true) :=
+  compute_fracs_window asset acctName period allowNeg none t sched ins outs intras cd h hmono
 end Rp2.C09
